@@ -645,6 +645,8 @@ typedef struct ares_event_thread ares_event_thread_t;
 
 void          ares_event_thread_destroy(ares_channel_t *channel);
 ares_status_t ares_event_thread_init(ares_channel_t *channel);
+/* Wake the event thread, if the channel has one, so it recomputes its timeout */
+void          ares_event_thread_wake_channel(const ares_channel_t *channel);
 
 
 #ifdef _WIN32
